@@ -92,6 +92,7 @@ SAFE_PATTERNS = [
     re.compile(r"core::result::Result::<T, E>::(map|map_or|map_or_else|map_err|and_then|or_else|unwrap_or|unwrap_or_else|unwrap_or_default|ok|err|as_ref|as_mut|is_ok_and|is_err_and|iter)"),
     re.compile(r"core::ops::(Range|RangeInclusive|RangeFrom|RangeTo|RangeToInclusive)::<Idx>::(contains|is_empty|start|end)"),
     re.compile(r"core::str::(error::)?Utf8Error::(valid_up_to|error_len)"),    # field accessors
+    re.compile(r"core::tuple::<impl core::cmp::(PartialEq|Eq|PartialOrd|Ord) for \([A-Z, ]+\)>::(eq|ne|cmp|partial_cmp|lt|le|gt|ge)"),   # field-wise on primitives
     re.compile(r"core::cmp::(min|max|Ord::min|Ord::max|PartialOrd::(lt|le|gt|ge)|PartialEq::(eq|ne))"),
     re.compile(r"core::cmp::impls::<impl core::cmp::(Ord|PartialOrd|PartialEq) for ([iu](8|16|32|64|128|size)|char|bool)>::(cmp|partial_cmp|eq|ne|lt|le|gt|ge|min|max)"),
     re.compile(r"core::iter::Iterator::(position|any|all|find|find_map|filter_map|rev|zip|chain|copied|cloned|last|nth|peekable|take_while|skip_while|map_while|inspect|fuse|flatten|flat_map|for_each|fold|max|min|max_by_key|min_by_key|max_by|min_by|by_ref)"),
@@ -190,6 +191,11 @@ def len_interval(t, iv, b):
     x = obj
     while x.op in ("mem", "memval", "ref"):
         x = x.args[0]
+    if x.op == "opaque_const":
+        # a constant array behind a reference (`&CONST_TABLE`): the length is in the type
+        m = re.search(r";\s*(\d+)\]$", str(x.args[0]).strip())
+        if m:
+            return (int(m.group(1)), int(m.group(1)))
     if x.op == "call" and x.args[0] in ("<util::data_vec::DataVec<T, N> as core::ops::Deref>::deref",
                                          "<tinyvec::ArrayVec<A> as core::ops::Deref>::deref",
                                          "util::data_vec::DataVec::<T, N>::as_slice", "util::data_vec::DataVec::<T, N>::as_mut_slice",
